@@ -147,6 +147,8 @@ def simplify(t):
         return ("op", name, args)
     if k == "tfield":
         base, i = t[1], t[2]
+        if base[0] == "loopvar" and isinstance(base[1], int):
+            return ("loopvar", (base[1], i), base[2])
         if base[0] == "op" and base[1] in OVERFLOW_OPS:
             if i == 0:
                 return simplify(("op", OVERFLOW_OPS[base[1]], base[2]))
@@ -205,8 +207,13 @@ def _resimplify(t):
         return simplify(("op", t[1], tuple(_resimplify(a) for a in t[2])))
     if k in ("field", "tfield", "variant"):
         return simplify((k, _resimplify(t[1]), t[2]))
+    if k in ("map", "zip", "filter", "enumerate", "rev", "chain", "rest"):
+        return (k,) + tuple(_resimplify(a) if isinstance(a, tuple) else a for a in t[1:])
     if k == "index":
-        return ("index", _resimplify(t[1]), _resimplify(t[2]))
+        b_, i_ = _resimplify(t[1]), _resimplify(t[2])
+        if i_ == ("enum_idx", b_):
+            return ("elem", b_)       # v[i] with i the index of the current item of v
+        return ("index", b_, i_)
     if k == "call":
         return ("call", t[1], tuple(_resimplify(a) for a in t[2]))
     if k == "phi":
@@ -231,6 +238,8 @@ def elem_of(stream):
         return ("tuple", (elem_of(stream[1]), elem_of(stream[2])))
     if k == "filter":
         return elem_of(stream[1])
+    if k == "rest":
+        return elem_of(stream[1])      # the items of the remainder are items of the stream
     return ("elem", stream)
 
 
@@ -295,7 +304,7 @@ def fmt(t, depth=0):
         return "|%s|{%s}" % (t[1].split("::")[-1], ", ".join(f(a) for a in t[2]))
     if k in ("elem", "enum_idx"):
         return "%s(%s)" % (k, f(t[1]))
-    if k in ("map", "zip", "filter", "enumerate", "rev", "chain", "push"):
+    if k in ("map", "zip", "filter", "enumerate", "rev", "chain", "push", "rest"):
         return "%s(%s)" % (k, ", ".join(f(a) for a in t[1:]))
     if k == "lam":
         return "|%s| %s" % (f(t[1]), f(t[2]))
@@ -304,7 +313,7 @@ def fmt(t, depth=0):
     if k == "rec":
         return "rec(_%d)" % t[1]
     if k == "loopvar":
-        return "loopvar(_%d@bb%d)" % (t[1], t[2])
+        return ("loopvar(_%d.%d@bb%d)" % (t[1][0], t[1][1], t[2])) if isinstance(t[1], tuple) else ("loopvar(_%d@bb%d)" % (t[1], t[2]))
     if k == "site":
         return "@bb%d" % t[2]
     if k == "fnref":
@@ -420,7 +429,7 @@ def subterms(t):
     elif k == "closure":
         for a in t[2]:
             yield from subterms(a)
-    elif k in ("map", "zip", "filter", "enumerate", "rev", "chain", "push", "lam"):
+    elif k in ("map", "zip", "filter", "enumerate", "rev", "chain", "push", "lam", "rest"):
         for a in t[1:]:
             if isinstance(a, tuple):
                 yield from subterms(a)
@@ -574,7 +583,8 @@ class TermBuilder:
             loops = self._loops()
             m = {}
             for s_ in subterms(t):
-                if s_[0] == "loopvar" and s_[2] in loops and bb in loops[s_[2]] and s_ not in m:
+                if s_[0] == "loopvar" and s_[2] in loops and s_ not in m:
+                    # (also in the blocks an iteration leaves the loop through: the symbol still is the current item's index there)
                     c = self._iteration_counter(s_[1], s_[2])
                     if c is not None:
                         m[s_] = c
@@ -589,6 +599,8 @@ class TermBuilder:
     def _iteration_counter(self, l, h):
         """("enum_idx", stream) (+ start) when local l counts the iterations of the stream loop at h: initialised with a constant,
         incremented by one exactly once in every iteration, the loop being left only on exhaustion of its single iterator"""
+        if not isinstance(l, int) or getattr(self, "_no_counters", False):
+            return None
         key = ("counter", l, h)
         if key in self._memo:
             return self._memo[key]
@@ -598,17 +610,44 @@ class TermBuilder:
         if fn.local_ty(l) in ("usize", "u64", "u32", "i32", "i64", "isize"):
             body = self._loops()[h]
             ds = [d for d in self._all_defs(l) if d[0] in body]
-            init = self._entry_value(l, h, False, through_head=True)
+            # a scratch builder: this is called from the middle of other evaluations (non-empty recursion stack, half-filled memo)
+            sc = TermBuilder(fn, self.prog, self.subst, self.depth)
+            sc._no_counters = True
+            init = sc._entry_value(l, h, False, through_head=True)
             if len(ds) == 1 and ds[0][2] == "stmt" and init[0] == "const" and isinstance(init[1], int) and not isinstance(init[1], bool):
-                upd = self._exit_value(l, ds[0][0], False)
+                upd = sc._exit_value(l, ds[0][0], False)
                 lv = ("loopvar", l, h)
                 back = [p for p in fn.preds()[h] if p in body]
                 if upd == simplify(("op", "Add", (lv, const(1)))) and all(fn.dominates(ds[0][0], b) for b in back):
-                    st = self._for_loop_stream(h)
+                    st = sc._for_loop_stream(h)
+                    if st is None and init[1] == 0:
+                        st = sc._index_loop_collection(l, h)
                     if st is not None:
                         r = ("enum_idx", st) if init[1] == 0 else simplify(("op", "Add", (("enum_idx", st), init)))
+            _closure_hook[0] = self._apply_closure_hook
         self._memo[key] = r
         return r
+
+    def _index_loop_collection(self, l, h):
+        """`let mut i = 0; while i != v.len() { .. v[i] .. i += 1 }`: the collection whose length bounds counter l in the test at
+        the head of loop h (the loop visits v's items in order, so i is the index of the current item)"""
+        fn = self.fn
+        blk = fn.blocks[h]
+        if blk.term.k != "switch":
+            # the head may just copy operands; the test sits in its single successor
+            return None
+        # (evaluated in a scratch builder: terms computed while the counter is still unknown must not end up in this builder's memo)
+        scratch = TermBuilder(fn, self.prog, self.subst, self.depth)
+        scratch._no_counters = True
+        cond = scratch.operand(blk.term.discr, h, len(blk.stmts))
+        _closure_hook[0] = self._apply_closure_hook
+        lv = ("loopvar", l, h)
+        if cond[0] == "op" and cond[1] in ("Ne", "Lt", "Eq") and len(cond[2]) == 2 and lv in cond[2]:
+            other = [x for x in cond[2] if x != lv]
+            if len(other) == 1 and other[0][0] == "call" and other[0][1].endswith("::len") and len(other[0][2]) == 1:
+                if cond[1] != "Lt" or cond[2][0] == lv:
+                    return other[0][2][0]
+        return None
 
     def _summarise_finished_loops(self, t, bb):
         """outside a loop, the loop-carried symbol of a vector that the loop only appends to is the collected stream"""
@@ -622,12 +661,23 @@ class TermBuilder:
         return subst_term(t, m) if m else t
 
     def _loop_summary(self, l, h):
+        if not isinstance(l, int):
+            return None
         key = ("summary", l, h)
         if key in self._memo:
             return self._memo[key]
         self._memo[key] = None          # recursion guard
         r = None
+        if self._stack:
+            # called from the middle of another evaluation: use a scratch builder (clean recursion stack and memo)
+            sc = TermBuilder(self.fn, self.prog, self.subst, self.depth)
+            r = sc._loop_summary(l, h)
+            _closure_hook[0] = self._apply_closure_hook
+            self._memo[key] = r
+            return r
         init, upd = self.loop_init(l, h), self.loop_update(l, h)
+        if "loopvar" in repr(init):
+            init = self._summarise_finished_loops(init, h)      # built up by an earlier loop
         lv = ("loopvar", l, h)
         fresh = init[0] == "call" and init[1] in ("std::vec::Vec::new", "std::vec::Vec::with_capacity", "alloc::vec::Vec::new", "alloc::vec::Vec::with_capacity",
                                                  "std::collections::HashMap::new", "std::collections::HashMap::with_capacity", "std::collections::BTreeMap::new")
@@ -637,6 +687,17 @@ class TermBuilder:
             st = self._for_loop_stream(h)
             if st is not None:
                 r = ("call", "std::iter::Iterator::collect", (("map", st, ("lam", elem_of(st), upd[2])),))
+        elif upd[0] == "push" and upd[1] == lv and stateless(upd[2]) and init[0] == "call" and init[1].endswith("Iterator::collect") \
+                and init[2][0][0] == "map" and init[2][0][2][0] == "lam":
+            # a second loop appending f(item) of another stream to the vector a first loop built with the same f: one collect over the chain
+            st2 = self._for_loop_stream(h)
+            st1, lam1 = init[2][0][1], init[2][0][2]
+            if st2 is not None:
+                x = ("elem", ("chain", st1, st2))
+                b1 = subst_term(lam1[2], {lam1[1]: x})
+                b2 = subst_term(upd[2], {elem_of(st2): x})
+                if b1 == b2:
+                    r = ("call", "std::iter::Iterator::collect", (("map", ("chain", st1, st2), ("lam", x, b1)),))
         elif fresh and upd[0] == "phi" and len(upd[1]) == 2 and lv in upd[1]:
             # the item is appended in some iterations only: a filter, when the append sits under exactly one test of the loop body
             pu = [a for a in upd[1] if a != lv][0]
@@ -775,10 +836,14 @@ class TermBuilder:
 
     def loop_init(self, l, head):
         """value of loop-carried local l on first entry of the loop"""
+        if isinstance(l, tuple):       # component i of a loop-carried tuple
+            return simplify(("tfield", self.loop_init(l[0], head), l[1]))
         return self._entry_value(l, head, False, through_head=True)
 
     def loop_update(self, l, head):
         """value of l flowing around the back edge(s), in terms of ("loopvar", l, head)"""
+        if isinstance(l, tuple):
+            return _resimplify(("tfield", self.loop_update(l[0], head), l[1]))
         body = self._loops()[head]
         alts = [self._exit_value(l, p, False) for p in self.fn.preds()[head] if p in body]
         return mk_phi(alts) if alts else ("unknown", "no-backedge")
@@ -866,7 +931,9 @@ class TermBuilder:
                     if pl.local in aliases0:
                         aliases0.add(s2.place.local)
             if t.args[0].place.local in aliases0:
-                return self.local(l, b, i)
+                before0 = self.local(l, b, i)
+                # by_ref() leaves the iterator as it is; next() leaves "the stream without its first item"
+                return before0 if t.callee_decl().endswith("by_ref") else ("rest", before0)
         if fn.local_ty(l).startswith(("std::cell::RefMut<", "std::cell::Ref<", "&")):
             # `&mut guard` (for DerefMut): what may change is the structure behind the guard, whose term is a place — the guard
             # itself still denotes the same place
@@ -976,7 +1043,8 @@ class TermBuilder:
                 else:
                     t = simplify(("field", t, nm))
             elif k == "index":
-                t = ("index", t, self.local(pr["local"], bb, idx))
+                ix = self.local(pr["local"], bb, idx)
+                t = ("elem", t) if ix == ("enum_idx", t) else ("index", t, ix)
             elif k == "downcast":
                 t = simplify(("variant", t, pr.get("name") or str(pr["v"])))
             elif k == "constindex":
@@ -1100,6 +1168,8 @@ class TermBuilder:
             return ("call", "size_of", (("unknown", str(term.func.get("args"))),))
         # operators on overloaded types
         if decl == "std::ops::Index::index" or decl == "std::ops::IndexMut::index_mut":
+            if args[1] == ("enum_idx", args[0]):
+                return ("elem", args[0])      # v[i] with i the index of the current item of v
             return ("index", args[0], args[1])
         if decl == "std::ops::BitOr::bitor":
             return simplify(("op", "BitOr", tuple(args)))
@@ -1140,6 +1210,16 @@ class TermBuilder:
             if args[0][0] == "loopvar":
                 args = [self.loop_init(args[0][1], args[0][2])]
             return ("adt", "std::option::Option", "Some", (("0", elem_of(args[0])),))
+        # first / last element of a slice
+        if decl in ("[T]::first", "core::slice::<impl [T]>::first", "std::slice::<impl [T]>::first") and len(args) == 1:
+            return ("adt", "std::option::Option", "Some", (("0", ("index", args[0], const(0))),))
+        if decl in ("[T]::last", "core::slice::<impl [T]>::last", "std::slice::<impl [T]>::last") and len(args) == 1:
+            return ("adt", "std::option::Option", "Some", (("0", ("index", args[0], simplify(("op", "Sub", (("call", "std::vec::Vec::len", (args[0],)), const(1)))))),))
+        # calling a closure value: f(a, b) is Fn::call(&f, (a, b))
+        if decl in ("std::ops::Fn::call", "std::ops::FnMut::call_mut", "std::ops::FnOnce::call_once") and len(args) == 2 and args[0][0] == "closure" and args[1][0] == "tuple":
+            r = apply_closure(args[0], args[1][1])
+            if not (r[0] == "call" and r[1] == "<apply>"):
+                return r
         # crate-local straight-line pure helpers (getters, tiny arithmetic helpers) are inlined
         r = self._inline_local(term, callee, args)
         if r is not None:
